@@ -1212,4 +1212,88 @@ theorem load_afterNew (os : OS) (p : Pid) (pr : Proc) (s : SegId) (len : Nat) (r
   have := load_eq os p pr.nextAddr off _ hm (by simpa using h1) (by simpa using h2)
   simpa using this
 
+/-! ## the binding of a segment name under arbitrary schedules -/
+
+/-- a bound segment name stays bound to the same object under every system call except a `shm_unlink` of it -/
+theorem sysStep_shmNames_bound (p : Pid) (i : Bool) (c : Sys) (os : OS) (k : ShmKey) (s : SegId)
+    (hk : os.shmNames k = some s) (hc : c ≠ .shmUnlink k) : (sysStep p i c os).1.shmNames k = some s := by
+  cases c with
+  | shmOpen k' fl m =>
+    simp only [sysStep]
+    split
+    · exact hk
+    · unfold shmOpenF
+      by_cases e : k' = k
+      · subst e; simp only [hk]; split <;> simp [OS.setProc, hk]
+      · have : k ≠ k' := fun x => e x.symm
+        (repeat' split) <;> simp [OS.setProc, hk, this]
+  | shmUnlink k' =>
+    have e : k' ≠ k := fun x => hc (by rw [x])
+    have : k ≠ k' := fun x => e x.symm
+    simp only [sysStep, Sys.interruptible, Bool.and_false]
+    (repeat' split) <;> simp [hk, this]
+  | semOpen k' fl m v =>
+    simp only [sysStep]
+    split
+    · exact hk
+    · unfold semOpenF; (repeat' split) <;> simp [hk]
+  | semWait o =>
+    simp only [sysStep]
+    (repeat' split) <;> simp [hk]
+  | _ =>
+    simp only [sysStep, Sys.interruptible, Bool.and_false, OS.setProc]
+    all_goals ((repeat' split) <;> simp [hk])
+
+/-- no step of the schedule is a `shm_unlink (k)` -/
+def NoShmUnlink (k : ShmKey) : G → List Action → Prop
+  | _, [] => True
+  | g, a :: as =>
+    (match a with
+     | .step t _ => ∀ c, g.calls t = some c → c.next ≠ .shmUnlink k
+     | _ => True) ∧ NoShmUnlink k (exec g a) as
+
+theorem shm_binding_execAll (k : ShmKey) (s : SegId) (as : List Action) :
+    ∀ g, g.os.shmNames k = some s → NoShmUnlink k g as → (execAll g as).os.shmNames k = some s := by
+  induction as with
+  | nil => intro g h _; exact h
+  | cons a as ih =>
+    intro g h hq
+    simp only [execAll, List.foldl_cons]
+    refine ih (exec g a) ?_ hq.2
+    cases a with
+    | start t op => simp only [exec]; rw [start_shmNames]; exact h
+    | kill p => exact h
+    | step t i =>
+      simp only [exec]
+      cases hc : g.calls t with
+      | none => rw [step_none g t i hc]; exact h
+      | some c =>
+        rw [step_os g t i c hc]
+        exact sysStep_shmNames_bound _ _ _ _ _ _ h (hq.1 c hc)
+
+/-- `shm_unlink (k)` is issued only by `p_shm_free` of an owner's handle of `k`, or on the failure
+    path of a `p_shm_new` that created `k` itself -/
+theorem shm_unlink_only_by (c : Call) (k : ShmKey) (h : c.next = .shmUnlink k) :
+    (∃ st : ShmFreeSt, c = .shmFree st ∧ st.pc = .unlink ∧ st.h.key = k) ∨
+    (∃ hid e, ∃ st : ShmNewSt, c = .shmNew hid st ∧ st.pc = .fUnlink e ∧ st.key = k) := by
+  cases c with
+  | semNew hid s => obtain ⟨key, mode, init, pc⟩ := s; cases pc <;> simp [Call.next, SemNewSt.next] at h
+  | semFree s => obtain ⟨hd, pc⟩ := s; cases pc <;> simp [Call.next, SemFreeSt.next] at h
+  | acquire hd => simp [Call.next, acquireNext] at h
+  | release hd => simp [Call.next, releaseNext] at h
+  | shmNew hid st =>
+    right
+    obtain ⟨key, req, ro, created, isExists, size, addr, pc⟩ := st
+    cases pc with
+    | fUnlink e => simp [Call.next, ShmNewSt.next] at h; exact ⟨hid, e, _, rfl, rfl, h⟩
+    | sem s => obtain ⟨key', mode, init, pc'⟩ := s; cases pc' <;> simp [Call.next, ShmNewSt.next, SemNewSt.next] at h
+    | _ => simp [Call.next, ShmNewSt.next] at h
+  | shmFree st =>
+    left
+    obtain ⟨hd, pc⟩ := st
+    cases pc with
+    | unlink => simp [Call.next, ShmFreeSt.next] at h; exact ⟨_, rfl, rfl, h⟩
+    | sem s => obtain ⟨hd', pc'⟩ := s; cases pc' <;> simp [Call.next, ShmFreeSt.next, SemFreeSt.next] at h
+    | munmap => simp [Call.next, ShmFreeSt.next] at h
+
 end PV.IPC
